@@ -814,4 +814,228 @@ theorem first_in_mid {a b c : List Nat} {t : Nat} (nd : (a ++ (b ++ c)).Nodup)
     simp only [List.cons_append, List.nodup_cons, List.mem_append, not_or] at nd
     exact nd.1.2.1 ht
 
+
+theorem Inv.hdAdd_agree {idx : Index} (inv : Inv idx) (h : Head) (sub : Sub)
+    (hs : Seg.indexed sub ∈ idx.segs) : ∀ i, i ∈ sub.chain → idx.hdAdd h i = idx.hd i := by
+  intro i hi
+  have : i ≠ idx.next := fun e => inv.next_not_mem (e ▸ mem_order hs hi)
+  simp [Index.hdAdd, this]
+
+/-! ### `assertz` -/
+
+theorem addBack_spec {idx : Index} (inv : Inv idx) (h : Head) :
+    Inv (addBack idx h) ∧ (addBack idx h).live = idx.live ++ [idx.next] := by
+  rw [addBack_eq]
+  split
+  · rename_i hl
+    have hlive : idx.live = [] := by simpa using hl
+    refine ⟨?_, ?_⟩
+    · apply inv.add
+      · simp [standalone_chain]
+      · intro i hi; simp [standalone_chain] at hi; exact Or.inr hi
+      · intro sub hs
+        simp only [List.mem_singleton] at hs
+        exact Or.inr (standalone_inv idx.next h (hdAdd_next idx h) sub hs.symm)
+    · simp [live_add, standalone_chain, hlive, inv.alive_next]
+  · rename_i t hl
+    have htl : t ∈ idx.live := List.mem_of_getLast? hl
+    split
+    · rename_i segs hm
+      obtain ⟨pre, s, post, s', hsegs, hpre, ht, hf, rfl⟩ := modifySegOf_some _ _ _ _ hm
+      obtain ⟨sub, rfl, harg, rfl⟩ := mergeF_some hf
+      have hso : segOf t idx.segs = some (.indexed sub) := by
+        rw [hsegs]; exact segOf_split t pre _ post hpre ht
+      simp only [hso, Option.map_some, Option.getD_some, Seg.chain]
+      have hsubmem : Seg.indexed sub ∈ idx.segs := by simp [hsegs]
+      have hsi := inv.subs sub hsubmem
+      have hagree := inv.hdAdd_agree h sub hsubmem
+      have hl1 : ∀ i, i ∈ (sub.chain.filter idx.alive).reverse ↔ i ∈ sub.chain ∧ idx.alive i = true := by
+        intro i; simp
+      refine ⟨inv.add_merge h .append pre sub post _ _ hsegs harg
+        (foundOK_lit hsi _ hagree _ _ hl1) (foundOK_struct hsi _ hagree _ _ hl1), ?_⟩
+      rw [live_add_merge]
+      have hls := live_split hsegs
+      have hnd := inv.live_nodup
+      rw [hls] at hnd hl
+      have hC := last_in_mid hnd hl
+        (List.mem_filter.2 ⟨ht, (List.mem_filter.1 htl).2⟩)
+      rw [hls]
+      simp [Seg.chain, Mode.extend, List.filter_append, inv.alive_next, hC]
+    · refine ⟨?_, ?_⟩
+      · apply inv.add
+        · have := inv.nodup
+          have hn := inv.next_not_mem
+          unfold Index.order at this hn
+          simp [List.nodup_append, standalone_chain, this]
+          intro a s hs ha e
+          exact hn (List.mem_flatMap.2 ⟨s, hs, e ▸ ha⟩)
+        · intro i hi
+          simp [standalone_chain] at hi
+          rcases hi with ⟨s, hs, hi⟩ | hi
+          · exact Or.inl (mem_order hs hi)
+          · exact Or.inr hi
+        · intro sub hs
+          simp only [List.mem_append, List.mem_singleton] at hs
+          rcases hs with hs | hs
+          · exact Or.inl hs
+          · exact Or.inr (standalone_inv idx.next h (hdAdd_next idx h) sub hs.symm)
+      · rw [live_add]
+        simp [standalone_chain, Index.live, Index.order, List.filter_append, inv.alive_next]
+
+
+/-! ### `asserta` -/
+
+theorem addFront_spec {idx : Index} (inv : Inv idx) (h : Head) :
+    Inv (addFront idx h) ∧ (addFront idx h).live = idx.next :: idx.live := by
+  rw [addFront_eq]
+  split
+  · rename_i hl
+    have hlive : idx.live = [] := by simpa using hl
+    refine ⟨?_, ?_⟩
+    · apply inv.add
+      · simp [standalone_chain]
+      · intro i hi; simp [standalone_chain] at hi; exact Or.inr hi
+      · intro sub hs
+        simp only [List.mem_singleton] at hs
+        exact Or.inr (standalone_inv idx.next h (hdAdd_next idx h) sub hs.symm)
+    · simp [live_add, standalone_chain, hlive, inv.alive_next]
+  · rename_i t hl
+    have htl : t ∈ idx.live := List.mem_of_head? hl
+    split
+    · rename_i segs hm
+      obtain ⟨pre, s, post, s', hsegs, hpre, ht, hf, rfl⟩ := modifySegOf_some _ _ _ _ hm
+      obtain ⟨sub, rfl, harg, rfl⟩ := mergeF_some hf
+      have hsubmem : Seg.indexed sub ∈ idx.segs := by simp [hsegs]
+      have hsi := inv.subs sub hsubmem
+      have hagree := inv.hdAdd_agree h sub hsubmem
+      have hl1 : ∀ i, i ∈ sub.chain.filter idx.alive ↔ i ∈ sub.chain ∧ idx.alive i = true := by
+        intro i; simp
+      have hls := live_split hsegs
+      have hnd := inv.live_nodup
+      have hl' := hl
+      rw [hls] at hnd hl'
+      have hA := first_in_mid hnd hl' (List.mem_filter.2 ⟨ht, (List.mem_filter.1 htl).2⟩)
+      have hskel : idx.live ++ idx.dead = sub.chain.filter idx.alive ++
+          ((post.flatMap Seg.chain).filter idx.alive ++ idx.dead) := by
+        rw [hls, hA]; simp [Seg.chain]
+      rw [hskel]
+      refine ⟨inv.add_merge h .prepend pre sub post _ _ hsegs harg
+        (foundOK_lit hsi _ hagree _ _ hl1) (foundOK_struct hsi _ hagree _ _ hl1), ?_⟩
+      rw [live_add_merge, hls, hA]
+      simp [Seg.chain, Mode.extend, inv.alive_next]
+    · refine ⟨?_, ?_⟩
+      · apply inv.add
+        · have := inv.nodup
+          have hn := inv.next_not_mem
+          unfold Index.order at this hn
+          simp [standalone_chain, this]
+          intro s hs e
+          exact hn (List.mem_flatMap.2 ⟨s, hs, e⟩)
+        · intro i hi
+          simp [standalone_chain] at hi
+          rcases hi with hi | ⟨s, hs, hi⟩
+          · exact Or.inr hi
+          · exact Or.inl (mem_order hs hi)
+        · intro sub hs
+          simp only [List.mem_cons] at hs
+          rcases hs with hs | hs
+          · exact Or.inr (standalone_inv idx.next h (hdAdd_next idx h) sub hs.symm)
+          · exact Or.inl hs
+      · rw [live_add]
+        simp [standalone_chain, Index.live, Index.order, inv.alive_next]
+
+/-! ### the theorems -/
+
+theorem Inv.addBack {idx : Index} (inv : Inv idx) (h : Head) : Inv (addBack idx h) :=
+  (addBack_spec inv h).1
+
+theorem Inv.addFront {idx : Index} (inv : Inv idx) (h : Head) : Inv (addFront idx h) :=
+  (addFront_spec inv h).1
+
+theorem live_addBack {idx : Index} (inv : Inv idx) (h : Head) :
+    (addBack idx h).live = idx.live ++ [idx.next] := (addBack_spec inv h).2
+
+theorem live_addFront {idx : Index} (inv : Inv idx) (h : Head) :
+    (addFront idx h).live = idx.next :: idx.live := (addFront_spec inv h).2
+
+theorem addBack_is_add (idx : Index) (h : Head) : ∃ segs, addBack idx h = idx.add h segs := by
+  rw [addBack_eq]
+  split
+  · exact ⟨_, rfl⟩
+  · split <;> exact ⟨_, rfl⟩
+
+theorem addFront_is_add (idx : Index) (h : Head) : ∃ segs, addFront idx h = idx.add h segs := by
+  rw [addFront_eq]
+  split
+  · exact ⟨_, rfl⟩
+  · split <;> exact ⟨_, rfl⟩
+
+theorem hd_addBack' (idx : Index) (h : Head) (id : Nat) :
+    (addBack idx h).hd id = if id = idx.next then h else idx.hd id := by
+  obtain ⟨segs, e⟩ := addBack_is_add idx h
+  rw [e, hd_add]; rfl
+
+theorem hd_addFront' (idx : Index) (h : Head) (id : Nat) :
+    (addFront idx h).hd id = if id = idx.next then h else idx.hd id := by
+  obtain ⟨segs, e⟩ := addFront_is_add idx h
+  rw [e, hd_add]; rfl
+
+theorem hd_addBack {idx : Index} (_inv : Inv idx) (h : Head) (id : Nat) :
+    (addBack idx h).hd id = if id = idx.next then h else idx.hd id := hd_addBack' idx h id
+
+theorem hd_addFront {idx : Index} (_inv : Inv idx) (h : Head) (id : Nat) :
+    (addFront idx h).hd id = if id = idx.next then h else idx.hd id := hd_addFront' idx h id
+
+theorem next_addBack (idx : Index) (h : Head) : (addBack idx h).next = idx.next + 1 := by
+  obtain ⟨segs, e⟩ := addBack_is_add idx h
+  rw [e]; rfl
+
+theorem next_addFront (idx : Index) (h : Head) : (addFront idx h).next = idx.next + 1 := by
+  obtain ⟨segs, e⟩ := addFront_is_add idx h
+  rw [e]; rfl
+
+theorem inv_empty : Inv (build true []) := by
+  refine ⟨?_, ?_, ?_, ?_, ?_⟩ <;> simp [build, split, splitGo, enumFrom', Index.order]
+
+theorem live_empty : (build true []).live = [] := by
+  simp [build, split, splitGo, Index.live, Index.order]
+
+
+/-! ### histories -/
+
+/-- an update of a dynamic predicate. -/
+inductive Op where
+  | assertz (h : Head)
+  | asserta (h : Head)
+  | retract (id : Nat)
+  deriving Repr
+
+def Op.apply (idx : Index) : Op → Index
+  | .assertz h => addBack idx h
+  | .asserta h => addFront idx h
+  | .retract id => remove idx id
+
+/-- the index of a dynamic predicate after a history of updates, starting from no clauses. -/
+def run (ops : List Op) : Index := ops.foldl Op.apply (build true [])
+
+theorem Inv.apply {idx : Index} (inv : Inv idx) (op : Op) : Inv (op.apply idx) := by
+  cases op with
+  | assertz h => exact inv.addBack h
+  | asserta h => exact inv.addFront h
+  | retract id => exact inv.remove id
+
+theorem inv_foldl (ops : List Op) (idx : Index) (inv : Inv idx) : Inv (ops.foldl Op.apply idx) := by
+  induction ops generalizing idx with
+  | nil => exact inv
+  | cons op r ih => exact ih _ (inv.apply op)
+
+theorem inv_run (ops : List Op) : Inv (run ops) := inv_foldl ops _ inv_empty
+
+/-- after any history of assertz/asserta/retract, what the index hands over, filtered by head
+unification, is exactly the live clauses whose head unifies, in order. -/
+theorem run_select_exact (ops : List Op) (call : Call) (wf : CallWF call) :
+    (select (run ops) call).filter (fun id => compatHead ((run ops).hd id) call)
+      = (run ops).live.filter (fun id => compatHead ((run ops).hd id) call) :=
+  (inv_run ops).select_exact call wf
+
 end Scryer.Index
